@@ -140,9 +140,28 @@ func c13(run *ev.Run) int {
 	// front that can strip the HTTP trailers of a response (a misbehaving
 	// intermediary: gRPC calls then end without a Grpc-Status).
 	reg := svc.NewRegistry()
-	hs := svc.Handlers(reg, connect.WithReadMaxBytes(c13ReadMax))
+	// ... and with a recovery function: a few calls panic on purpose, and each of
+	// them must get the error built from its own panic value while the calls
+	// around it are unaffected
+	hs := svc.Handlers(reg, connect.WithReadMaxBytes(c13ReadMax), connect.WithRecover(func(_ context.Context, _ connect.Spec, _ http.Header, v any) error {
+		return connect.NewError(connect.CodeDataLoss, fmt.Errorf("recovered %v", v))
+	}))
 	mux := svc.Mux(hs)
 	front := http.HandlerFunc(func(w http.ResponseWriter, req *http.Request) {
+		if id := req.Header.Get("X-Verif-Truncate"); id != "" {
+			// a Connect stream that ends without its end-of-stream message (a
+			// truncating intermediary): one valid message, the call's id in a
+			// response header, then a clean end of the body
+			_, _ = io.Copy(io.Discard, req.Body)
+			w.Header().Set("Content-Type", req.Header.Get("Content-Type"))
+			w.Header().Set("X-Echo-Id", id)
+			b, _ := proto.Marshal(&gen.Msg{Id: 5})
+			if strings.HasSuffix(req.Header.Get("Content-Type"), "json") {
+				b = []byte(`{"id":"5"}`)
+			}
+			_, _ = w.Write(append([]byte{0, 0, 0, 0, byte(len(b))}, b...))
+			return
+		}
 		mux.ServeHTTP(w, req)
 		if req.Header.Get("X-Verif-Strip") != "" {
 			for k := range w.Header() {
@@ -272,6 +291,12 @@ func (s *c13State) oneCall(r *rand.Rand, id uint64, procs int) {
 		return
 	case c.proto == "grpc" && r.Intn(12) == 0:
 		s.strippedCall(r, c, id, procs)
+		return
+	case c.proto == "connect" && r.Intn(12) == 0:
+		s.truncatedCall(r, c, id, procs)
+		return
+	case r.Intn(20) == 0:
+		s.panicCall(r, c, id, procs)
 		return
 	}
 	// what this call sends and expects back: reply ids are a function of id
@@ -785,4 +810,79 @@ func (s *c13State) strippedCall(r *rand.Rand, c *c13Client, id uint64, procs int
 		fmt.Fprintf(h, "%s|%d|%d", e.Error(), e.Code(), hashHeader(e.Meta()))
 		return h.Sum64()
 	}})
+}
+
+// truncatedCall: a Connect server stream whose body ends without the
+// end-of-stream message. The error is produced inside the client; whatever it
+// carries must belong to this call and must not change afterwards.
+func (s *c13State) truncatedCall(r *rand.Rand, c *c13Client, id uint64, procs int) {
+	run := s.run
+	idStr := strconv.FormatUint(id, 10)
+	var cl *c13Outcome
+	ok, dump := watchdog(120*time.Second, func() {
+		cl = s.drive(c, svc.ServerStream, "none", idStr, id, []*gen.Msg{{Id: id*16 + 1}}, "X-Verif-Truncate", idStr)
+	})
+	atomic.AddInt64(&s.done, 1)
+	run.Count("calls", 1)
+	run.Count("truncated_stream.calls", 1)
+	run.Eval(fmt.Sprintf("%s|server|truncated-stream|procs=%d", c.name, procs))
+	key := fmt.Sprintf("c13/truncated/%s", c.name)
+	if !ok {
+		run.Violation(key+"/hang", "call whose stream was truncated hung", trunc(dump, 30000))
+		return
+	}
+	var ce *connect.Error
+	if !errors.As(cl.err, &ce) || ce.Code() == 0 {
+		run.Violation(key+"/not-failed", "Connect stream without an end-of-stream message did not fail with a coded error: "+errStr(cl.err), nil)
+		return
+	}
+	if got := ce.Meta().Get("X-Echo-Id"); got != "" && got != idStr {
+		run.Violation(key+"/error-meta-crosstalk", fmt.Sprintf("error of call %s carries response header id %q of another call", idStr, got), nil)
+		return
+	}
+	if got := cl.header.Get("X-Echo-Id"); got != idStr {
+		run.Violation(key+"/header-crosstalk", fmt.Sprintf("call %s sees response header id %q", idStr, got), nil)
+		return
+	}
+	e := ce
+	s.keep(&retained{what: "missing-end-of-stream error", owner: id, hash: func() uint64 {
+		h := fnv.New64a()
+		fmt.Fprintf(h, "%s|%d|%d", e.Error(), e.Code(), hashHeader(e.Meta()))
+		return h.Sum64()
+	}})
+}
+
+// panicCall: the handler panics with a value that names the call; the recovery
+// function turns it into an error that must come back to this call only.
+func (s *c13State) panicCall(r *rand.Rand, c *c13Client, id uint64, procs int) {
+	run := s.run
+	kind := svc.Kinds[r.Intn(4)]
+	if kind == svc.Bidi && !c.http2 {
+		kind = svc.ClientStream
+	}
+	idStr := strconv.FormatUint(id, 10)
+	prog := &svc.Program{Header: http.Header{"X-Echo-Id": {idStr}}, Steps: []svc.Step{{Op: "recv"}}}
+	if (kind == svc.ServerStream || kind == svc.Bidi) && r.Intn(2) == 0 {
+		prog.Steps = append(prog.Steps, svc.Step{Op: "send", Msg: gen.New(id*16+8, 40, true)})
+	}
+	prog.Steps = append(prog.Steps, svc.Step{Op: "panic", Val: "p-" + idStr})
+	call := s.srv.Reg.New("c13p", prog)
+	defer s.srv.Reg.Drop(call)
+	var cl *c13Outcome
+	ok, dump := watchdog(120*time.Second, func() {
+		cl = s.drive(c, kind, call.ID, idStr, id, []*gen.Msg{{Id: id*16 + 1}})
+	})
+	atomic.AddInt64(&s.done, 1)
+	run.Count("calls", 1)
+	run.Count("panicking.calls", 1)
+	run.Eval(fmt.Sprintf("%s|%s|handler-panic|procs=%d", c.name, kind, procs))
+	key := fmt.Sprintf("c13/panic/%s/%s", c.name, kind)
+	if !ok {
+		run.Violation(key+"/hang", "call whose handler panicked hung", trunc(dump, 30000))
+		return
+	}
+	want := "data_loss: recovered p-" + idStr
+	if got := errStr(cl.err); got != want {
+		run.Violation(key+"/recovered-error", fmt.Sprintf("handler of call %s panicked under a recovery function: the client received %q, want %q", idStr, got, want), nil)
+	}
 }
